@@ -94,8 +94,8 @@ impl Limiter {
 
 impl Process for Limiter {
     closed spec fn inv(&self) -> bool { self.skipped <= self.skip && self.next.inv() && (self.limit matches Some(l) ==> self.passed <= l) }
-    closed spec fn log(&self) -> Seq<u8> { self.next.log() }
-    closed spec fn fut(&self, rows: Seq<Context>) -> Seq<u8> { self.next.fut(window(self.skip_left(), self.take_left(), rows)) }
+    closed spec fn log(&self) -> Seq<char> { self.next.log() }
+    closed spec fn fut(&self, rows: Seq<Context>) -> Seq<char> { self.next.fut(window(self.skip_left(), self.take_left(), rows)) }
     closed spec fn must_break(&self) -> bool { match self.limit { Some(l) => self.passed >= l, None => self.next.must_break() } }
     closed spec fn eager(&self) -> bool { false }
 
@@ -127,8 +127,8 @@ impl Filter {
 
 impl Process for ActiveFilter {
     closed spec fn inv(&self) -> bool { self.next.inv() }
-    closed spec fn log(&self) -> Seq<u8> { self.next.log() }
-    closed spec fn fut(&self, rows: Seq<Context>) -> Seq<u8> { self.next.fut(filter_rows(self.filter, rows)) }
+    closed spec fn log(&self) -> Seq<char> { self.next.log() }
+    closed spec fn fut(&self, rows: Seq<Context>) -> Seq<char> { self.next.fut(filter_rows(self.filter, rows)) }
     closed spec fn must_break(&self) -> bool { self.next.must_break() }
     closed spec fn eager(&self) -> bool { false }
 
@@ -163,8 +163,8 @@ impl Selection {
 
 impl Process for SelectionProcess {
     closed spec fn inv(&self) -> bool { self.next.inv() }
-    closed spec fn log(&self) -> Seq<u8> { self.next.log() }
-    closed spec fn fut(&self, rows: Seq<Context>) -> Seq<u8> { self.next.fut(select_rows(self.getter, *self.name, rows)) }
+    closed spec fn log(&self) -> Seq<char> { self.next.log() }
+    closed spec fn fut(&self, rows: Seq<Context>) -> Seq<char> { self.next.fut(select_rows(self.getter, *self.name, rows)) }
     closed spec fn must_break(&self) -> bool { self.next.must_break() }
     closed spec fn eager(&self) -> bool { false }
 
@@ -185,8 +185,8 @@ impl Process for SelectionProcess {
 
 impl Process for PreSetProcessor {
     closed spec fn inv(&self) -> bool { self.next.inv() }
-    closed spec fn log(&self) -> Seq<u8> { self.next.log() }
-    closed spec fn fut(&self, rows: Seq<Context>) -> Seq<u8> { self.next.fut(preset_rows(self.variables@, self.macros@, rows)) }
+    closed spec fn log(&self) -> Seq<char> { self.next.log() }
+    closed spec fn fut(&self, rows: Seq<Context>) -> Seq<char> { self.next.fut(preset_rows(self.variables@, self.macros@, rows)) }
     closed spec fn must_break(&self) -> bool { self.next.must_break() }
     closed spec fn eager(&self) -> bool { false }
 
@@ -218,8 +218,8 @@ impl Splitter {
 
 impl Process for SplitterProcess {
     closed spec fn inv(&self) -> bool { self.next.inv() }
-    closed spec fn log(&self) -> Seq<u8> { self.next.log() }
-    closed spec fn fut(&self, rows: Seq<Context>) -> Seq<u8> { self.next.fut(split_rows(self.split_by, rows)) }
+    closed spec fn log(&self) -> Seq<char> { self.next.log() }
+    closed spec fn fut(&self, rows: Seq<Context>) -> Seq<char> { self.next.fut(split_rows(self.split_by, rows)) }
     closed spec fn must_break(&self) -> bool { self.next.must_break() }
     closed spec fn eager(&self) -> bool { false }
 
@@ -296,8 +296,8 @@ impl Uniquness {
 
 impl Process for Uniquness {
     closed spec fn inv(&self) -> bool { self.next.inv() }
-    closed spec fn log(&self) -> Seq<u8> { self.next.log() }
-    closed spec fn fut(&self, rows: Seq<Context>) -> Seq<u8> { self.next.fut(uniq_rows(self.knwon_lines@, rows)) }
+    closed spec fn log(&self) -> Seq<char> { self.next.log() }
+    closed spec fn fut(&self, rows: Seq<Context>) -> Seq<char> { self.next.fut(uniq_rows(self.knwon_lines@, rows)) }
     closed spec fn must_break(&self) -> bool { self.next.must_break() }
     closed spec fn eager(&self) -> bool { false }
 
@@ -334,8 +334,8 @@ impl Merger {
 
 impl Process for Merger {
     closed spec fn inv(&self) -> bool { self.next.inv() && self.next.eager() }
-    closed spec fn log(&self) -> Seq<u8> { self.next.log() }
-    closed spec fn fut(&self, rows: Seq<Context>) -> Seq<u8> { self.next.fut(seq![merged_row(self.data@, rows)]) }
+    closed spec fn log(&self) -> Seq<char> { self.next.log() }
+    closed spec fn fut(&self, rows: Seq<Context>) -> Seq<char> { self.next.fut(seq![merged_row(self.data@, rows)]) }
     closed spec fn must_break(&self) -> bool { false }
     closed spec fn eager(&self) -> bool { false }
 
@@ -397,8 +397,8 @@ impl GrouperProcess {
 
 impl Process for GrouperProcess {
     closed spec fn inv(&self) -> bool { self.next.inv() && self.next.eager() }
-    closed spec fn log(&self) -> Seq<u8> { self.next.log() }
-    closed spec fn fut(&self, rows: Seq<Context>) -> Seq<u8> { self.next.fut(seq![grouped_row(self.group_by, self.groups(), rows)]) }
+    closed spec fn log(&self) -> Seq<char> { self.next.log() }
+    closed spec fn fut(&self, rows: Seq<Context>) -> Seq<char> { self.next.fut(seq![grouped_row(self.group_by, self.groups(), rows)]) }
     closed spec fn must_break(&self) -> bool { false }
     closed spec fn eager(&self) -> bool { false }
 
@@ -491,8 +491,8 @@ impl SortProcess {
 
 impl Process for SortProcess {
     closed spec fn inv(&self) -> bool { self.next.inv() }
-    closed spec fn log(&self) -> Seq<u8> { self.next.log() }
-    closed spec fn fut(&self, rows: Seq<Context>) -> Seq<u8> {
+    closed spec fn log(&self) -> Seq<char> { self.next.log() }
+    closed spec fn fut(&self, rows: Seq<Context>) -> Seq<char> {
         self.next.fut(emit(self.is_asc(), sort_all(self.sort_by, self.is_asc(), self.bk(), cap_of(self.space_left), rows)))
     }
     closed spec fn must_break(&self) -> bool { false }
